@@ -40,7 +40,7 @@ where
             out.feed(&v).await.map_err(|e| format!("feed: {}", e))?;
         }
     }
-    if !out.is_empty() { return Err("chunks missing after the archive phase".into()); }
+    // like clone_cmd: no check that every chunk arrived (an early end of the stream must be an error item)
     let mut data = out.into_inner().data;
     // set_len(total_source_size): a huge value is a sparse file or an error on a real file system
     if total > (1 << 30) { return Err("set_len: source size not plausible".into()); }
